@@ -114,6 +114,8 @@ def same(a, b):
     if isinstance(a, float) and isinstance(b, float):
         if math.isnan(a) and math.isnan(b):
             return True
+        if a == b:                      # also equal infinities
+            return True
         return abs(a - b) <= 1e-9 * max(1.0, abs(a), abs(b))
     return a == b
 
@@ -123,6 +125,11 @@ def metric_history_fails(chk, name, cls, dict_metric, ncalls):
     rng = chk.rng
     for style in (["prob"] if dict_metric else ["real", "class", "bool", "strlabel"]):
         shared = cls()
+        try:
+            from river.metrics.base import MeanMetric as _MM
+            mean_metric = isinstance(shared, _MM) and type(shared).__name__ in ("MAE", "MSE", "CubedError", "WithinOne")
+        except Exception:
+            mean_metric = False
         with warnings.catch_warnings():
             warnings.simplefilter("ignore")
             adapters = [validate_loss_function(shared) for _ in range(3)]
@@ -148,6 +155,10 @@ def metric_history_fails(chk, name, cls, dict_metric, ncalls):
         prev = None
         for t in range(ncalls):
             y, p = gen_pair(rng, dict_metric, style)
+            if style == "real" and mean_metric and rng.random() < 0.08:
+                # a diverged model: one non-finite prediction in an otherwise ordinary stream (a fresh running-mean metric reports
+                # inf for it, and is fresh again after the revert); everything after it must be unaffected
+                p = {"output": rng.choice([float("inf"), float("-inf")])}
             if prev is not None and t % 4 == 3:
                 # the caller reuses ONE prediction dict object and refreshes it in place, same target: still a new evaluation
                 y0, p0 = prev
